@@ -32,14 +32,18 @@ def ed_add(p, q):
 def ed_neg(p): return ((-p[0]) % Q, p[1])
 def on_curve(p): x, y = p; return (A * x * x + y * y - 1 - D * x * x * y * y) % Q == 0
 def aff(c):
-    X, Y, Z, T = c; zi = inv(Z); return (X * zi % Q, Y * zi % Q)
+    X, Y, Z, T = c
+    if Z % Q == 0: return ('Z=0', X % Q, Y % Q)      # not a point; never equal to anything (see coset_eq)
+    zi = inv(Z); return (X * zi % Q, Y * zi % Q)
 def wf(c):
     X, Y, Z, T = c
     return Z % Q != 0 and (X * Y - Z * T) % Q == 0 and (A * X * X + Y * Y - Z * Z - D * T * T) % Q == 0
 def valid(c):
     X, Y, Z, T = c
     return wf(c) and is_sq((A - D) * (A * Z * Z - D * Y * Y))
-def coset_eq(p, q): return p == q or p == ((-q[0]) % Q, (-q[1]) % Q)
+def coset_eq(p, q):
+    if p is None or q is None or len(p) != 2 or len(q) != 2: return False
+    return p == q or p == ((-q[0]) % Q, (-q[1]) % Q)
 def smul(k, p):
     acc = (0, 1)
     while k:
